@@ -7,7 +7,7 @@ from typing import Dict, List, Optional, Set
 
 from .. import fold, rca
 from .. import vgc as vgc_mod
-from ..core import AnalysisError, call_name, calls_in, const_str, is_self_attr, walk_local
+from ..core import AnalysisError, call_name, calls_in, const_str, dotted, is_self_attr, walk_local
 from ..grammar import G
 
 EXPLANATION = (
@@ -305,7 +305,11 @@ def _stack_rule(ctx, res) -> None:
         push = pushes[0]
         for mname, m in sorted(w.methods.items()):
             for loop in [x for x in walk_local(m.node) if isinstance(x, ast.For)]:
-                if not any(is_self_attr(x, attr) for x in ast.walk(loop.iter)):
+                from .common import _subst_single_locals
+                liter = _subst_single_locals(m.node, loop.iter)  # the iterable may be held in a local
+                while isinstance(liter, ast.Call) and (dotted(liter.func) or "").endswith("chain.from_iterable") and len(liter.args) == 1:
+                    liter = liter.args[0]  # flattening the entries keeps their order
+                if not any(is_self_attr(x, attr) for x in ast.walk(liter)):
                     continue
                 first_match = any(isinstance(x, (ast.Return, ast.Break)) for s_ in loop.body for x in [s_, *walk_local(s_)])
                 if not first_match:
@@ -316,7 +320,7 @@ def _stack_rule(ctx, res) -> None:
                     def visit_Attribute(self, node):
                         return ast.Name(id="__stack__", ctx=ast.Load()) if is_self_attr(node, attr) else self.generic_visit(node)
                 import copy
-                it = _Sub().visit(copy.deepcopy(loop.iter))
+                it = _Sub().visit(copy.deepcopy(liter))
                 disc = _iter_discipline(ast.For(target=loop.target, iter=it, body=loop.body, orelse=[]), "__stack__")
                 if disc is None:
                     res.undecided("R08.6", f"_PatchingASTWalker.{mname}|{attr}", f"{m.unit.rel}:{loop.lineno}",
